@@ -103,9 +103,9 @@ bool Floats_Equal(double a, double b, double tol)
 
 // 2. Special functions
 // 2.1 Gamma functions
-std::vector<double> FactorialList = {1.0};
 double Factorial(unsigned int n)
 {
+	static std::vector<double> FactorialList = {1.0};
 	if(n > 170)
 	{
 		std::cerr << "Error in libphysica::Factorial: Overflow for " << n << "!." << std::endl;
